@@ -132,12 +132,6 @@ func (a *Authenticator) performFSAuthenticationClient(ctx context.Context, negot
 
 	// Initialize result as failure
 	clientResult := -1
-	// leafName is the validated, single-component name passed to
-	// root.Mkdir / root.Remove. Set only after validateFSAuthPath
-	// accepts the server-supplied path.
-	var leafName string
-	var root *os.Root
-
 	// Try to create the directory if server provided a valid path
 	if dirPath != "" {
 		// The peer address (the server we dialed) is the endpoint an address-qualified
@@ -170,8 +164,16 @@ func (a *Authenticator) performFSAuthenticationClient(ctx context.Context, negot
 				// the server's stat-based ownership check.
 				if mkErr := r.Mkdir(leaf, 0700); mkErr == nil {
 					clientResult = 0
-					leafName = leaf
-					root = r
+					// Whatever happens from here on -- including a failure to send the
+					// result to the server -- the directory we just created is removed
+					// again before this function returns.
+					defer func() {
+						defer func() { _ = r.Close() }()
+						if err := r.Remove(leaf); err != nil {
+							// Log but don't fail - cleanup is best effort
+							fmt.Printf("Warning: failed to remove directory %s/%s: %v\n", fsAuthBaseDir, leaf, err)
+						}
+					}()
 				} else {
 					fmt.Printf("FS: Failed to create directory %s/%s: %v\n", fsAuthBaseDir, leaf, mkErr)
 					_ = r.Close()
@@ -186,31 +188,11 @@ func (a *Authenticator) performFSAuthenticationClient(ctx context.Context, negot
 	// Send result back to server
 	responseMsg := message.NewMessageForStream(a.stream)
 	if err := responseMsg.PutInt(ctx, clientResult); err != nil {
-		if root != nil {
-			_ = root.Close()
-		}
 		return fmt.Errorf("failed to send client result: %w", err)
 	}
 	if err := responseMsg.FinishMessage(ctx); err != nil {
-		if root != nil {
-			_ = root.Close()
-		}
 		return fmt.Errorf("failed to finish message: %w", err)
 	}
-
-	// Clean up directory if we created it
-	defer func() {
-		if root == nil {
-			return
-		}
-		defer func() { _ = root.Close() }()
-		if clientResult == 0 && leafName != "" {
-			if err := root.Remove(leafName); err != nil {
-				// Log but don't fail - cleanup is best effort
-				fmt.Printf("Warning: failed to remove directory %s/%s: %v\n", fsAuthBaseDir, leafName, err)
-			}
-		}
-	}()
 
 	// Receive server verification result
 	verifyMsg := message.NewMessageFromStream(a.stream)
